@@ -22,7 +22,8 @@ EXTENDS Integers, Sequences, FiniteSets, TLC, Json
 
 CONSTANTS Depth, EmitZero, DescUnits,
           HistVals,     \* value symbols recorded into the histogram: subset of DOMAIN ClassOfSym
-          HistCounts    \* how many samples one Touch of the histogram records
+          HistCounts,   \* how many samples one Touch of the histogram records
+          GaugeOps      \* subset of {"set", "set0", "setneg0", "inc", "dec0"}
 
 Keys == <<[kind |-> "c", name |-> "reqs", labels |-> <<>>],
           [kind |-> "c", name |-> "reqs", labels |-> <<<<"op", "get">>>>],
@@ -65,10 +66,22 @@ Describe(n, u) ==
 
 Touch(i) ==
     LET amount == Len(hist) + 1 IN
-    /\ Keys[i].kind # "h"
+    /\ Keys[i].kind = "c"
     /\ reg' = reg \cup {i}
-    /\ val' = [val EXCEPT ![i] = IF Keys[i].kind = "c" THEN @ + amount ELSE amount]
+    /\ val' = [val EXCEPT ![i] = @ + amount]
     /\ hist' = Append(hist, <<"Touch", i, amount>>)
+    /\ UNCHANGED <<unit, hval>>
+
+\* gauges: set(amount), set(+0.0), set(-0.0), increment(amount), decrement(current value) = back to exactly
+\* 0.0.  A gauge that was touched is registered and every readout reports its last value - 0 included.
+TouchG(i, gop) ==
+    LET amount == IF gop = "dec0" THEN val[i] ELSE Len(hist) + 1 IN
+    /\ Keys[i].kind = "g"
+    /\ reg' = reg \cup {i}
+    /\ val' = [val EXCEPT ![i] = CASE gop = "set" -> amount
+                                   [] gop \in {"set0", "setneg0", "dec0"} -> 0
+                                   [] gop = "inc" -> @ + amount]
+    /\ hist' = Append(hist, <<"Touch", i, amount, gop>>)
     /\ UNCHANGED <<unit, hval>>
 
 \* cnt samples of the value sym are recorded
@@ -94,6 +107,7 @@ Readout ==
 Next ==
     \/ Len(hist) < Depth - 1 /\ \E n \in Names, u \in DescUnits : Describe(n, u)
     \/ Len(hist) < Depth - 1 /\ \E i \in KI : Touch(i)
+    \/ Len(hist) < Depth - 1 /\ \E i \in KI, gop \in GaugeOps : TouchG(i, gop)
     \/ Len(hist) < Depth - 1 /\ \E i \in KI, sym \in HistVals, cnt \in HistCounts : TouchH(i, sym, cnt)
     \/ Readout
 
